@@ -31,6 +31,27 @@ def strip_self(e):
     return X.canon(e)
 
 
+def r189(db, ctx):
+    ctx.rule('R18.9', 'no __getitem__ narrows an integer: the index Python passes (isize) and the lengths it is compared with are only ever cast between '
+                      '64-bit integer types — a truncating cast (`index as i32`) makes every index congruent to a valid one modulo 2^32 valid too')
+    NARROW = ('i8', 'i16', 'i32', 'u8', 'u16', 'u32')
+    gs = pyfns(db, '__getitem__')
+    n = 0
+    for f in gs:
+        for g in [f] + list(db.closures_of(f)):
+            bad = []
+            for bi, blk in enumerate(g.blocks):
+                for st in blk['stmts']:
+                    if st.get('k') == 'assign' and st['rv'].get('k') == 'cast' and st['rv'].get('ty') in NARROW and not st.get('from_expansion'):
+                        bad.append((st['rv'].get('ty'), st.get('span')))
+            n += 1
+            if bad:
+                ctx.fail('R18.9', g, 'narrowing cast', f'cast to {bad[0][0]} in an index computation: indices outside the {bad[0][0]} range alias valid ones instead of raising IndexError', span=bad[0][1])
+            else:
+                ctx.ok('R18.9', g, 'no narrowing integer cast')
+    ctx.floor('R18.9', n, 5, '__getitem__ bodies')
+
+
 def r181_182(db, ctx):
     ctx.rule('R18.1', 'in every __getitem__ the value passed to the accessor is the value that went through the range test')
     ctx.rule('R18.2', 'every __getitem__ adds the length to a negative index, and the bound used is the quantity __len__ returns')
@@ -418,6 +439,7 @@ def r186(db, ctx):
 
 def run(db, ctx):
     r181_182(db, ctx)
+    r189(db, ctx)
     r183(db, ctx)
     r184(db, ctx)
     r185(db, ctx)
